@@ -163,9 +163,30 @@ func NewSymbolTokens(symbolTable SymbolTable, textVals []string) ([]SymbolToken,
 	return tokens, nil
 }
 
+// NewSymbolToken for the text of an unquoted symbol: text of the form '$n' is a
+// reference to the symbol ID n, anything else is the text of the symbol.
 func newSymbolToken(symbolTable SymbolTable, text string) (SymbolToken, error) {
 	if sid, ok := symbolIdentifier(text); ok {
 		return NewSymbolTokenBySID(symbolTable, sid)
 	}
+	if isSymbolIDOutOfRange(text) {
+		// A symbol ID that does not fit an int64 is not the ID of any symbol.
+		return SymbolToken{}, fmt.Errorf("ion: symbol ID %v is out of range", text)
+	}
 	return NewSymbolToken(symbolTable, text)
+}
+
+// Is this text a '$' followed by decimal digits only that symbolIdentifier does
+// not accept (because the number does not fit an int64)?
+func isSymbolIDOutOfRange(text string) bool {
+	if len(text) < 2 || text[0] != '$' {
+		return false
+	}
+	for i := 1; i < len(text); i++ {
+		if text[i] < '0' || text[i] > '9' {
+			return false
+		}
+	}
+	_, ok := symbolIdentifier(text)
+	return !ok
 }
